@@ -560,8 +560,7 @@ def gen_c17(tier, seed):
             k = 0
             for n in range(1, L + 1):
                 seqs = list(itertools.product(alpha, repeat=n))
-                if n >= 3 and tier == "quick":
-                    seqs = rnd.sample(seqs, 40)
+                # (all 125 triples in quick too: "select A, select B, reload" needs exactly one of them)
                 if n == 4:
                     seqs = rnd.sample(seqs, 200)
                 for sq in seqs:
@@ -758,6 +757,21 @@ def gen_c04(tier, seed, ctx=None):
         for u in [[]] + A:
             base.append((f"c04-{p.name}-{k}", p, ["new"] + u))
             k += 1
+        # the same units under a non-default driver setting (a field the failed call may leave
+        # changed): every other background colour, the quick refresh mode / waveform
+        settings = [f"bg,{c}" for c in range(p.colors)]
+        if p.has("refresh"):
+            settings.append("refresh,quick")
+        if p.has("lut"):
+            settings.append("lut,quick")
+        isset = lambda u: len(u) == 1 and u[0].split(",")[0] in ("bg", "refresh", "lut", "wait")
+        units = [u for u in A if not isset(u)]
+        if tier == "quick":
+            settings = settings[:1] + settings[-2:] if len(settings) > 3 else settings
+        for j, st in enumerate(dict.fromkeys(settings)):
+            for u in units:
+                base.append((f"c04-{p.name}-s{j}x{k}", p, ["new", st] + u))
+                k += 1
     if ctx is None:
         return {"v3": [], "stats": {}}
     SCHED = "2,1,2,0,1,2,1,2,0,1,2,1"   # busy panels: status polls / wait loops are real transfers too
@@ -784,9 +798,10 @@ def gen_c04(tier, seed, ctx=None):
                 pos += cnt
             total = pos - start
             # the op under test is the LAST unit (ops after `new`), and `new` itself for the bare scenario
-            is_target = (len(ops) == 1 and oi == 0) or (len(ops) > 1 and oi >= 1)
+            prefixed = re.search(r"-s\d+x\d+$", sid) is not None
+            is_target = (len(ops) == 1 and oi == 0) or (len(ops) > 1 and oi >= (2 if prefixed else 1))
             if is_target and idxs:
-                lim = 10 if tier == "quick" else 60
+                lim = (6 if prefixed else 10) if tier == "quick" else (24 if prefixed else 60)
                 if p.name in exhaustive:
                     lim = 10 ** 9
                 if len(idxs) > lim:
